@@ -6,7 +6,11 @@ the set to a doer) against the extracted model on generated filter lists x all s
 over the pattern's alphabet + path-shaped strings.  Property oracle, independent of the model: the
 documented rule evaluated with python's re.fullmatch on each pattern's own text, applied to what the
 implementation answered.  End-to-end runs of the real CLI (local and through a fake ssh) check which
-entries appear / stay byte-identical."""
+entries appear / stay byte-identical; the filters are given as --filter arguments or through a --spec file, and a
+systematic family repeats a filter after an overlapping filter of the opposite sign ([F, G, F]) over trees that
+contain paths matched by both.  A second unit leg starts from the argument vector / spec file: the REAL clap parser
+and resolve_spec (harness sub-command `resolve`) give the effective filter list of the sync, which then goes through
+the real compile_filters + apply_filters; the verdicts are judged against the list the user GAVE."""
 import os, sys, json, glob, tempfile, shutil, hashlib
 import vlib, e2e
 import filters_lib as FL
@@ -195,8 +199,9 @@ def tree_from_json(j):
     return {rel: ({'k': 'file', 'data': bytes.fromhex(n['data_hex']), 'mtime_ns': n['mtime_ns']} if n['k'] == 'file' else {'k': n['k']}) for rel, n in j.items()}
 
 
-def e2e_one(run, binary, jbin, tmp, fake, idx, filters, pyf, place, src, dest):
-    """One run of the real CLI. Returns [(what, replay)] for violations of the property."""
+def e2e_one(run, binary, jbin, tmp, fake, idx, filters, pyf, place, src, dest, via='args', kind='generated'):
+    """One run of the real CLI (filters as --filter arguments, or via='spec': in a spec file).
+    Returns [(what, replay)] for violations of the property."""
     found = []
     mode = 'empty' if dest is None else 'derived'
     d = os.path.join(tmp, 'e%d' % idx)
@@ -206,14 +211,22 @@ def e2e_one(run, binary, jbin, tmp, fake, idx, filters, pyf, place, src, dest):
     if dest is not None:
         e2e.build_tree(droot, dest)
     s0, d0 = e2e.snapshot(sroot), e2e.snapshot(droot)
-    args = [('localhost:' if place[0] == 'R' else '') + sroot + '/', ('localhost:' if place[1] == 'R' else '') + droot + '/']
-    for f in filters:
-        args += ['--filter', f]
+    if via == 'spec':
+        specf = os.path.join(d, 'spec.yaml')
+        with open(specf, 'w') as f:
+            f.write(FL.spec_text(sroot + '/', droot + '/', filters, src_host='localhost' if place[0] == 'R' else None,
+                                 dest_host='localhost' if place[1] == 'R' else None))
+        args = ['--spec', specf]
+    else:
+        args = [('localhost:' if place[0] == 'R' else '') + sroot + '/', ('localhost:' if place[1] == 'R' else '') + droot + '/']
+        for f in filters:
+            args += ['--filter', f]
     r = e2e.run_cli(binary, args, fake_ssh=fake if 'R' in place else None, timeout=120)
     s1, d1 = e2e.snapshot(sroot), e2e.snapshot(droot)
-    rep = {'driver': 'e2e', 'filters': filters, 'python_patterns': [x[1] for x in pyf], 'placement': place,
+    rep = {'driver': 'e2e', 'filters': filters, 'python_patterns': [x[1] for x in pyf], 'placement': place, 'via': via, 'kind': kind,
            'src_tree': tree_to_json(src), 'dest_tree': tree_to_json(dest), 'exit': r['exit'], 'stderr': r['stderr'][-400:]}
     run.count('e2e:' + place); run.count('e2e-exit:%s' % r['exit']); run.count('e2e-dest:' + mode)
+    run.count('e2e-via:' + via); run.count('e2e-kind:' + kind)
     part = {rel: FL.takes_part(pyf, rel) for rel in set(s0) | set(d0) | set(d1) if rel}
     bad = None
     if r['timed_out'] or r['exit'] not in e2e.DOCUMENTED_EXITS:
@@ -232,11 +245,11 @@ def e2e_one(run, binary, jbin, tmp, fake, idx, filters, pyf, place, src, dest):
                 if rel not in s0 and rel in d1:
                     bad = 'destination-only entry %r takes part, exit 0, but it is still there' % rel; break
     nexcl = sum(1 for v in part.values() if v is False)
-    run.case(('e2e', filters, sorted(src), sorted(dest) if dest else None, place), nexcl > 0 and nexcl < len(part),
-             sample={'case': {k: rep[k] for k in ('driver', 'filters', 'placement', 'exit')}, 'excluded': nexcl, 'entries': len(part)})
+    run.case(('e2e', filters, sorted(src), sorted(dest) if dest else None, place, via), nexcl > 0 and nexcl < len(part),
+             sample={'case': {k: rep[k] for k in ('driver', 'filters', 'placement', 'via', 'exit')}, 'excluded': nexcl, 'entries': len(part)})
     run.traces_validated += 1
     if bad:
-        found.append(('e2e %s %r: %s' % (place, filters, bad), rep))
+        found.append(('e2e %s %r (%s): %s' % (place, filters, 'spec file' if via == 'spec' else '--filter arguments', bad), rep))
     # the model's walk of the source tree = what the implementation listed (visible when the destination starts empty)
     if jbin and not bad:
         ents = sorted((rel, 'd' if n_['k'] == 'dir' else 'f') for rel, n_ in src.items() if rel)
@@ -275,22 +288,150 @@ def e2e_cases(run, binary, jbin, tmp, tier):
         place = placements[i % len(placements)] if i >= 4 else 'LL'
         src = FL.gen_tree(rng, depth=2, width=4, mtime=1_700_000_000_000_000_000, fill=1)
         mode = rng.choice(['empty', 'derived', 'derived'])
-        dest = None
-        if mode == 'derived':
-            dest = {'': {'k': 'dir'}}
-            for rel, node in src.items():          # a stale copy of part of the source ...
-                parent = rel.rsplit('/', 1)[0] if '/' in rel else ''
-                if rel and parent in dest and rng.random() < 0.6:
-                    dest[rel] = dict(node)
-                    if node['k'] == 'file':
-                        dest[rel] = {'k': 'file', 'data': b'old:' + node['data'], 'mtime_ns': 1_600_000_000_000_000_000}
-            extra = FL.gen_tree(rng, depth=2, width=3, mtime=1_600_000_000_000_000_000, fill=2)   # ... plus entries of its own
-            for rel, node in extra.items():
-                parent = rel.rsplit('/', 1)[0] if '/' in rel else ''
-                if rel and rel not in dest and parent in dest and dest[parent]['k'] == 'dir':
-                    dest[rel] = node
-        found += e2e_one(run, binary, jbin, tmp, fake, i, filters, pyf, place, src, dest)
+        dest = FL.derive_dest(rng, src) if mode == 'derived' else None
+        found += e2e_one(run, binary, jbin, tmp, fake, i, filters, pyf, place, src, dest, via='spec' if i % 5 == 4 else 'args')
+    found += e2e_repeat_cases(run, binary, jbin, tmp, tier, fake, first_idx=n)
     return found
+
+
+def e2e_repeat_cases(run, binary, jbin, tmp, tier, fake, first_idx=1000, n=None):
+    """The same filter again later in the list with an overlapping filter of the opposite sign in between
+    ([F, G, F] and longer shapes): the last match must still win, for --filter arguments and for a spec file.
+    Every tree contains paths matched by both F and G - on the source, as stale copies on the destination and
+    as destination-only entries."""
+    rng = run.rng
+    found = []
+    if n is None:
+        n = 2 * len(FL.REPEAT_TABLE) + (12 if tier == 'quick' else 300)
+    placements = ['LL', 'LL', 'LL', 'LL', 'RL', 'LL', 'LL', 'LR', 'LL', 'RR']
+    i = tries = 0
+    while i < n and tries < 20 * n:
+        tries += 1
+        g = FL.gen_repeat_list(rng, i if i < 2 * len(FL.REPEAT_TABLE) else None)
+        if g is None:
+            continue
+        fl, wit = g
+        filters = [sg + p.rs for sg, p in fl]
+        pyf = [(sg, p.py) for sg, p in fl]
+        src, dest = FL.trees_with_witnesses(rng, wit, empty_dest=(i % 7 == 6))
+        run.count('e2e-repeat-witnesses-planted', min(3, len(wit)))
+        found += e2e_one(run, binary, jbin, tmp, fake, first_idx + i, filters, pyf, placements[i % len(placements)], src, dest,
+                         via='spec' if i % 2 else 'args', kind='repeated-filter')
+        i += 1
+    return found
+
+
+# ------------------------------------------------------------------------------------------------
+# unit leg through the REAL resolve_spec: argv / spec file -> effective filter list -> compile_filters + apply_filters
+def resolve_cases(run, tier):
+    """[(Case over the GIVEN filters, via)]: repeated filters (user-style with witnesses, subset grammar over all short
+    strings), and lists without repeats as controls."""
+    rng = run.rng
+    out = []
+    n_rep = (120 if tier == 'quick' else 1500)
+    i = tries = 0
+    while i < n_rep and tries < 20 * n_rep:
+        tries += 1
+        g = FL.gen_repeat_list(rng, i if i < 2 * len(FL.REPEAT_TABLE) else None)
+        if g is None:
+            continue
+        fl, wit = g
+        out.append((Case(fl, wit[:40] + FL.PATHY, 'resolve-repeat-pathy'), 'spec' if i % 2 else 'args'))
+        i += 1
+    for i in range(200 if tier == 'quick' else 3000):
+        F, G = FL.gen_pattern(rng), FL.gen_pattern(rng)
+        sf = rng.choice('+-')
+        sg = '-' if sf == '+' else '+'
+        shape = rng.choice(['FGF', 'FGF', 'FGFG', 'FGGF', 'FFG', 'GFGF', 'FGFF'])
+        fl = [{'F': (sf, F), 'G': (sg, G)}[c] for c in shape]
+        alpha = FL.alphabet_for([F, G], rng, 3)
+        out.append((Case(fl, FL.strings_over(alpha, 4) + rng.sample(FL.PATHY, 6), 'resolve-repeat-subset'), 'spec' if i % 2 else 'args'))
+    for i, filters in enumerate(E2E_FILTERS):
+        fl = [(f[0], FL.Pat(f[1:], f[1:], set(f[1:]) - FL.META)) for f in filters]
+        out.append((Case(fl, FL.PATHY + ['a/keep.txt', 'a/x.tmp', 'b/build', 'x', 'keep.txt', 'rebuild/q'], 'resolve-control'), 'spec' if i % 2 else 'args'))
+    out.append((Case([], ['', 'a', 'a/b'], 'resolve-no-filters'), 'args'))
+    return out
+
+
+def effective_filters(resolve_line):
+    """The filter list of the first sync in an `OK ...` answer of the resolve harness, or None."""
+    if not resolve_line.startswith('OK ') or ' | ' not in resolve_line:
+        return None
+    sync = dict(x.split('=', 1) for x in resolve_line.split(' | ')[1].split())
+    inner = sync['filters'].split('[', 1)[1].rstrip(']')
+    return [unhx(x) for x in inner.split(',') if x] if inner else []
+
+
+def eval_resolve_cases(run, rcases, binary, jbin, tmp):
+    """argv / spec file -> real clap + resolve_spec -> effective list -> real compile_filters/apply_filters; the verdicts are
+    judged by the documented rule (python) on the list that was GIVEN, and compared with the model on the given list."""
+    found = []
+    req = []
+    for i, (c, via) in enumerate(rcases):
+        t = c.texts()
+        if via == 'spec':
+            specf = os.path.join(tmp, 'rspec%d.yaml' % i)
+            with open(specf, 'w') as f:
+                f.write(FL.spec_text('s', 'd', t))
+            argv = ['--spec', specf]
+        else:
+            argv = ['s', 'd']
+            for f in t:
+                argv += ['--filter', f]
+        req.append('A %d %s' % (len(argv), ' '.join(hx(a) for a in argv)))
+    answers = vlib.harness(binary, 'resolve', req)
+    todo = []
+    for (c, via), al in zip(rcases, answers):
+        run.count('resolve:' + c.kind); run.count('resolve-via:' + via)
+        eff = effective_filters(al)
+        if eff is None:
+            if al.startswith('CLAPERR') and via == 'args':
+                run.count('resolve:clap-refused')      # e.g. a filter text that looks like an option: cannot be given this way
+            else:
+                run.broke('correspondence', 'resolve-filters', json.dumps({'filters': c.texts(), 'via': via, 'answer': al[:300]})[:1500])
+            continue
+        todo.append((c, via, eff))
+    lines_eff = ['F %d %s %d %s' % (len(e), ' '.join(hx(x) for x in e), len(c.paths), ' '.join(hx(x) for x in c.paths)) for c, _, e in todo]
+    impl = vlib.harness(binary, 'filters', lines_eff) if todo else []
+    model = vlib.judge(jbin, [c.line('F') for c, _, _ in todo]) if (jbin and todo) else [None] * len(todo)
+    for (c, via, eff), il, ml in zip(todo, impl, model):
+        given = c.texts()
+        it = il.split()
+        rep = {'driver': 'unit:resolve', 'kind': c.kind, 'via': via, 'filters': given, 'python_patterns': [p.py for _, p in c.filters],
+               'effective_filters': eff, 'paths': c.paths[:60], 'impl': il[:300], 'model': (ml or '')[:300]}
+        run.case(('resolve', given, via, c.paths), it[0] == 'OK' and 'I' in it[1] and 'E' in it[1],
+                 sample={'case': {k: rep[k] for k in ('driver', 'kind', 'via', 'filters', 'effective_filters')}, 'impl': il[:120]})
+        run.traces_validated += 1
+        failed = False
+        if it[0] == 'OK':
+            pyf = c.py_filters()
+            judged = 0
+            for p, v in zip(c.paths, it[1]):
+                want = FL.py_rule(pyf, p)
+                if want is None:
+                    continue
+                judged += 1
+                if (v == 'I') != want:
+                    r2 = dict(rep, paths=[p], failing_path=p, impl_verdict=v, documented_rule='I' if want else 'E')
+                    found.append(('filters %r given %s: the sync uses %r, so path %r is %s; the documented rule (last match wins) says %s' % (
+                        given, 'in a spec file' if via == 'spec' else 'as --filter arguments', eff, p,
+                        {'I': 'included', 'E': 'excluded'}[v], 'included' if want else 'excluded'), r2))
+                    failed = True
+                    break
+            run.count('resolve:python-judged-verdicts', judged)
+        if failed:
+            continue
+        if eff != given:
+            run.broke('correspondence', 'resolve-filters', json.dumps(rep)[:1500])     # resolve_spec is the identity on filters in the model
+        elif ml is not None and c.is_ascii() and ml != il and not (ml == 'ERR regex' and it[0] == 'OK' and not c.subset):
+            run.broke('correspondence', 'resolve-then-filters', json.dumps(rep)[:1500])
+        else:
+            run.count('resolve:effective-equals-given')
+    return found
+
+
+def resolve_case_from_json(d):
+    return (case_from_json(dict(d, kind=d.get('kind', 'replay'))), d.get('via', 'args'))
 
 
 # ------------------------------------------------------------------------------------------------
@@ -311,7 +452,7 @@ def search_family(run, binary):
     return found[0] if found else None
 
 
-def check(run, only=None, only_e2e=None):
+def check(run, only=None, only_e2e=None, only_resolve=None):
     run.trusted = list(vlib.COMMON_TRUSTED) + [
         'modelled, not verified: the regex crate (1.7.1 / regex-syntax 0.6.28) - its parser and matcher are represented by Model/RegexParse.v and Model/Regex.v for the subset and compared on every run; outside the subset and for non-ASCII text only the python oracle speaks',
         'python 3.11 re (re.ASCII) as the independent reading of "the regular expression matches the entire path"',
@@ -321,7 +462,11 @@ def check(run, only=None, only_e2e=None):
     run.extra['rule'] = ('filter lists of 1-4 filters generated from the subset grammar (and user-style name/extension/alternation filters) x all strings up to '
                          'length 4 over an alphabet of 3-4 characters drawn from the pattern (plus a case variant and a foreign character) + path-shaped strings; '
                          'a unit case is non-trivial when the filters compile and both verdicts occur among its paths; distinct by (filter texts, paths); '
-                         'e2e cases are non-trivial when some but not all entries are excluded')
+                         'e2e cases are non-trivial when some but not all entries are excluded; e2e filters are given as --filter arguments or in a spec file; '
+                         'repeated-filter family: lists [F, G, F] (and longer shapes) with G of the opposite sign and a path of the tree matched by both, '
+                         'from a table and from generated user-style filters, on trees with such paths planted on the source, as stale copies and as '
+                         'destination-only entries; resolve leg: the same lists (and subset-grammar ones over all strings up to length 4) as argv / spec file '
+                         'through the real clap parser + resolve_spec, the effective list through the real compile_filters/apply_filters, verdicts judged on the given list')
     binary = vlib.build_impl()
     vlib.regen_facts(binary)
     ok = run.check_proofs('C06', THEOREMS, extra_targets=['theories/Extract/Ex_filters.vo'])
@@ -337,19 +482,29 @@ def check(run, only=None, only_e2e=None):
                 cases.append(case_from_json(d))
         if only is not None:
             cases = [only]
-        elif only_e2e is not None:
+        elif only_e2e is not None or only_resolve is not None:
             cases = []
         else:
             cases += gen_cases(run, run.tier)
         found = []
         for k in range(0, len(cases), 500):
             found += eval_cases(run, cases[k:k + 500], binary, jbin)
+        if only_resolve is not None:
+            found += eval_resolve_cases(run, [only_resolve], binary, jbin, tmp)
+        elif only is None and only_e2e is None:
+            rc = []
+            for f in sorted(glob.glob(os.path.join(vlib.VERIF, 'corpus', 'C06', '*.json'))):
+                d = json.load(open(f))
+                if d.get('driver') == 'unit:resolve':
+                    rc.append(resolve_case_from_json(dict(d, kind='corpus:' + os.path.basename(f)[:-5])))
+            found += eval_resolve_cases(run, rc + resolve_cases(run, run.tier), binary, jbin, tmp)
         if only_e2e is not None:
             r = only_e2e
             found += e2e_one(run, binary, jbin, tmp, e2e.fake_ssh_dir(tmp), 0, r['filters'],
                              [(f[0], py) for f, py in zip(r['filters'], r.get('python_patterns') or [f[1:] for f in r['filters']])],
-                             r.get('placement', 'LL'), tree_from_json(r['src_tree']), tree_from_json(r.get('dest_tree')))
-        elif only is None:
+                             r.get('placement', 'LL'), tree_from_json(r['src_tree']), tree_from_json(r.get('dest_tree')),
+                             via=r.get('via', 'args'), kind=r.get('kind', 'replay'))
+        elif only is None and only_resolve is None:
             found += e2e_cases(run, binary, jbin, tmp, run.tier)
         for what, rep in found[:20]:
             run.fail(what, rep)
@@ -365,4 +520,6 @@ def replay(run, path):
         return check(run, only=case_from_json(r))
     if r.get('driver') == 'e2e' and r.get('src_tree'):
         return check(run, only_e2e=r)
+    if r.get('driver') == 'unit:resolve':
+        return check(run, only_resolve=resolve_case_from_json(r))
     return check(run)
